@@ -136,6 +136,20 @@ func (e *engine) CompileModule(ctx context.Context, module *wasm.Module, listene
 	if err != nil {
 		return err
 	}
+	if len(listeners) > 0 {
+		cm.listeners = listeners
+		cm.listenerBeforeTrampolines = make([]*byte, len(module.TypeSection))
+		cm.listenerAfterTrampolines = make([]*byte, len(module.TypeSection))
+		for i := range module.TypeSection {
+			typ := &module.TypeSection[i]
+			before, after := e.getListenerTrampolineForType(typ)
+			cm.listenerBeforeTrampolines[i] = before
+			cm.listenerAfterTrampolines[i] = after
+		}
+	}
+
+	// Only now the module is complete: other goroutines compiling the same module use it as soon as it is
+	// found in memory.
 	if err = e.addCompiledModule(module, cm); err != nil {
 		return err
 	}
@@ -146,18 +160,6 @@ func (e *engine) CompileModule(ctx context.Context, module *wasm.Module, listene
 			if err != nil {
 				return err
 			}
-		}
-	}
-
-	if len(listeners) > 0 {
-		cm.listeners = listeners
-		cm.listenerBeforeTrampolines = make([]*byte, len(module.TypeSection))
-		cm.listenerAfterTrampolines = make([]*byte, len(module.TypeSection))
-		for i := range module.TypeSection {
-			typ := &module.TypeSection[i]
-			before, after := e.getListenerTrampolineForType(typ)
-			cm.listenerBeforeTrampolines[i] = before
-			cm.listenerAfterTrampolines[i] = after
 		}
 	}
 	return nil
